@@ -629,7 +629,7 @@ def check_c01(run: Run, prog: Program) -> None:
         "first unused contravariant index of its target - that the library's bookkeeping does exactly this is what E14 decides under C05) with the Levi-Civita tensor as "
         "the table of permutation signs. join(p, q), meet(l, m) in the plane and join(p, q, r), meet(e, f, g) in 3-space are incident with every argument, do not vanish "
         "identically, and change only by a scalar with the order of the arguments; the round trips meet(join(p, q), join(p, r)) ~ p and join(meet(l, m), meet(l, n)) ~ l "
-        "hold. NOT decided: lines of 3-space (the branches over 2-tensors: line with plane, subspace with point, coplanar lines after Blinn), the power-of-two "
+        "hold; the line join(p, q) of 3-space (a contravariant 2-tensor) cut with a plane gives, in both argument orders, a point of the plane that lies on the line through p and q. NOT decided: the other branches over lines of 3-space (subspace with point, coplanar lines after Blinn), the power-of-two "
         "normalisation (taken to be a positive scalar), the entries of LeviCivitaTensor, the co-/contravariant switch of 3D lines, and floating-point exactness."
     )
     run.trusted += ["LeviCivitaTensor(n) holds the permutation signs", "_divide_by_power_of_two multiplies by a positive scalar",
